@@ -10,7 +10,7 @@
    well formed and kept as they are by storage). *)
 From Coq Require Import List ZArith NArith Bool.
 From TF Require Import Base Query Index DB Spec proofs.IndexDefs proofs.IndexP proofs.RepP proofs.DBReadP proofs.DBRemoveP
-     proofs.DBStepP proofs.DBRunP proofs.DBSpecP proofs.GetterP.
+     proofs.DBStepP proofs.DBRunP proofs.DBSpecP proofs.GetterP proofs.RefineP.
 Import ListNotations.
 
 Theorem C06_reachable : forall E C norm, (forall p, wf_point p -> wf_point (norm p)) ->
@@ -19,6 +19,12 @@ Proof. exact reachable_Inv. Qed.
 Theorem C06_step : forall E C norm, (forall p, wf_point p -> wf_point (norm p)) ->
   forall s o, Inv s -> wf_op E norm o -> Inv (fst (step E C norm s o)).
 Proof. exact step_Inv. Qed.
+(* the whole API refines the list specification, from an empty database, for every history: Refinement.v *)
+Theorem C06_refines_list_spec : forall E C norm, (forall p, wf_point p -> wf_point (norm p)) ->
+  forall auto ops, wf_history_r E norm ops ->
+  st_rows (snd (run E C norm (init auto) ops)) = snd (spec_run E C norm [] ops) /\
+  Forall2 out_matches (fst (run E C norm (init auto) ops)) (fst (spec_run E C norm [] ops)).
+Proof. exact refines_from_empty. Qed.
 (* a described index and a rebuilt one give the same set of matches for every query the index serves *)
 Theorem C06_valid_is_rebuilt_search : forall E i pts q, Rep i pts -> wf_points pts -> wf_query E q -> exact_for_index q = true ->
   exists a b, isearch E i q = Some a /\ isearch E (ix_build pts) q = Some b /\ NoDup a /\ NoDup b /\ forall k, In k a <-> In k b.
@@ -49,6 +55,7 @@ Proof. exact read_prelude_valid. Qed.
 
 Print Assumptions C06_reachable.
 Print Assumptions C06_step.
+Print Assumptions C06_refines_list_spec.
 Print Assumptions C06_valid_is_rebuilt_search.
 Print Assumptions C06_valid_is_rebuilt_getters.
 Print Assumptions C06_build.
